@@ -316,6 +316,7 @@ func (m *MLDv2MulticastListenerReportMessage) DecodeFromBytes(data []byte, df go
 	// ignore data[0:2] as per RFC
 	// https://tools.ietf.org/html/rfc3810#section-5.2.1
 	m.NumberOfMulticastAddressRecords = binary.BigEndian.Uint16(data[2:4])
+	m.MulticastAddressRecords = nil
 
 	begin := 4
 	for i := uint16(0); i < m.NumberOfMulticastAddressRecords; i++ {
